@@ -8,7 +8,7 @@ func Catalogue(prop, tier string) []Cfg {
 		c.Prop = prop
 		if c.BudgetS == 0 {
 			if quick {
-				c.BudgetS = 60
+				c.BudgetS = 40
 			} else {
 				c.BudgetS = 600
 			}
